@@ -29,7 +29,7 @@ RULE = (
 )
 ASSUMPTIONS = [
     "Excl: keys/values containing a line break (the format is line based) or a tab in eclass names/paths (the eclass field separator)",
-    "Excl: values with leading or trailing whitespace (entries are read with strip_whitespace=True; observed: 'a ' comes back as 'a')",
+    "Excl: values with leading or trailing whitespace (entries are read with strip_whitespace=True; observed: 'a ' comes back as 'a', ' b' survives)",
     "Excl: mtimes that are negative or >= 2^53 (serialised through a float format)",
     "Excl: cpvs deeper than 'cat/pkg-1'; keys that are not valid cpv strings",
     "unknown keys are stored and ignored on read; only known keys are compared (known = pkgcore.ebuild.const.metadata_keys + the checksum key)",
@@ -38,9 +38,9 @@ ASSUMPTIONS = [
     "a stale .update.* temp file left behind by a crash is not an error by itself -- only its showing up in keys() is",
 ]
 BOUNDS = {
-    "quick": "2 layouts x 2 depths x 3 previous states x (125 key dicts x 2 unknown-key x 3 chf on a fixed eclass map + 16 eclass maps x 5 key dicts x 3 chf) round trips; "
-    "crash sweep: 2 layouts x 2 depths x 3 previous states x 8 new entries x {store} + delete, every crash point and torn write",
-    "thorough": "full product 125 key dicts x 2 unknown-key x 16 eclass maps x 3 chf x 2 layouts x 2 depths x 3 previous states; crash sweep over 24 new entries",
+    "quick": "2 layouts x 2 depths x 3 previous states x (125 key dicts x 2 unknown-key x 3 chf on a fixed eclass map + 11 eclass maps x 5 key dicts x 3 chf) = 10 980 round trips "
+    "(store, read, list, sibling, delete); crash sweep: 2 layouts x 2 depths x 3 previous states x (8 new entries + delete) = 100 scenarios, every crash point and torn write (728 executions)",
+    "thorough": "full product 125 key dicts x 2 unknown-key x 11 eclass maps x 3 chf x 2 layouts x 2 depths x 3 previous states = 99 000 round trips; crash sweep over 24 new entries (292 scenarios, 2168 executions)",
 }
 
 # ---------------------------------------------------------------------------------------------
@@ -192,8 +192,8 @@ def check_roundtrip(base, layout, cpv, prev, ent):
     shutil.rmtree(base, ignore_errors=True)
     os.makedirs(base)
     msgs = []
-    setup_prev(layout, base, cpv, prev)
     try:
+        setup_prev(layout, base, cpv, prev)
         store(open_cache(layout, base), cpv, ent)
     except Exception as e:
         return [f"{layout} {cpv} over {prev}: store raised {type(e).__name__}: {e}"]
@@ -437,6 +437,8 @@ def work(task):
             samples = [{"sweep": [layout, cpv, prev], "ent": scen[1][1]}]
     finally:
         shutil.rmtree(base, ignore_errors=True)
+    # the runner keeps at most 40 candidates per task: put the ones no classifier explains first
+    viol.sort(key=lambda v: any(f(v) for f in CLASSIFIERS.values()))
     return {"evals": evals, "classes": classes, "viol": viol, "samples": samples, "counters": counters, "keep_all_viol": False}
 
 
